@@ -13,8 +13,8 @@ PLAN = dict(
                           "faults are injected into element copy construction only; throwing move construction / assignment is the known finding C13-throwing-assignment-bricks-queue (witness leg)"],
     floor=dict(quick=300, thorough=2000),
     tiers=dict(
-        quick=[det("rel", H, "cs-rel", 16, 150, 4, tso=True, time_cap=30),
-               det("dbg", H, "cs-dbg", 16, 60, 4, tso=True, time_cap=25),
+        quick=[det("rel", H, "cs-rel", 16, 350, 4, tso=True, time_cap=40),
+               det("dbg", H, "cs-dbg", 16, 120, 4, tso=True, time_cap=30),
                det("witness-throwing-assignment", H, "cs-rel", 1, 2, 2, time_cap=30, args=["--witness"]),
                tsan("C13", 8, 240)],
         thorough=[det("rel", H, "cs-rel", 16, 4000, 5, tso=True, time_cap=300),
